@@ -364,7 +364,7 @@ theorem wire_events_eq_frames (decR decW : Bytes → σ → Option (Frame × σ)
 /-- non-vacuity: server side, the preface and a SETTINGS frame read in two calls that cut the
 preface, a write in between -/
 example :
-    let calls : List Call := [.read (clientPreface.take 10) .ok, .write [0, 0, 0] .ok,
+    let calls : List Call := [.read (clientPreface.take 10) .ok, .write [0, 0, 0] 3 .ok,
       .read (clientPreface.drop 10 ++ [0, 0, 0, 4, 0, 0, 0, 0, 0]) .ok]
     let fs : List RawFrame := [⟨4, 0, [0, 0, 0, 0], []⟩]
     (∀ f ∈ fs, f.ok) ∧ readBytes calls = (if true then clientPreface else []) ++ (fs.map RawFrame.enc).flatten := by
@@ -451,10 +451,63 @@ example :
   simp [wellFormed, Ex.wsX, expects, Expect.see, supersede, Ex.name_a, Expect.isOpen, Expect.name, Expect.held, Ending.err,
     Err.retryable, nodupNat, noOpenAfterGoaway, Expect.due]
 
+/-! ### bytes and errors of one call -/
+
+/-- **A `Read` that returns bytes together with an error is traced like the `Read` of those
+bytes followed by a `Read` of nothing with that error** — for every error kind (`io.EOF`,
+timeout, any other), every decoder and every connection state.  In particular the error never
+hides the bytes from the tracer: the frames they complete are handled before `cancelAll`. -/
+theorem read_data_with_error (decR decW : Bytes → σ → Option (Frame × σ)) (c : Conn σ) (data : Bytes) (err : IOErr) :
+    c.step decR decW (.read data err) = (c.step decR decW (.read data .ok)).step decR decW (.read [] err) ∧
+    c.callEvents decR decW (.read data err) =
+      c.callEvents decR decW (.read data .ok) ++ (c.step decR decW (.read data .ok)).callEvents decR decW (.read [] err) := by
+  have hnil : ∀ s : FSt σ, frameTrace decR s [] = (s, []) := fun s => by simp [frameTrace, run_nil]
+  constructor
+  · cases err <;> simp [Conn.step, hnil, handleFrames, applyOps, Coll.run, Conn.cancelAll]
+  · cases err <;> simp [Conn.callEvents, Conn.step, hnil, lostAfterRead]
+
+/-- **`Write(data)` with any result `(n, err)` of the inner connection — short or not — is
+traced like the complete `Write(data)` followed by an empty `Write` with that error**: the
+tracer is handed the whole argument before the inner `Write` runs. -/
+theorem write_data_with_error (decR decW : Bytes → σ → Option (Frame × σ)) (c : Conn σ) (data : Bytes) (n : Nat) (err : IOErr) :
+    c.step decR decW (.write data n err) =
+      (c.step decR decW (.write data data.length .ok)).step decR decW (.write [] 0 err) ∧
+    c.callEvents decR decW (.write data n err) =
+      c.callEvents decR decW (.write data data.length .ok) ++
+        (c.step decR decW (.write data data.length .ok)).callEvents decR decW (.write [] 0 err) := by
+  have hnil : ∀ s : FSt σ, frameTrace decW s [] = (s, []) := fun s => by simp [frameTrace, run_nil]
+  constructor
+  · cases err <;> simp [Conn.step, hnil, handleFrames, applyOps, Coll.run, Conn.cancelAll]
+  · cases err <;> simp [Conn.callEvents, Conn.step, hnil, lostAfterWrite]
+
+/-- The bytes a run hands to the two frame tracers are the bytes of the calls, error or not:
+`readBytes` / `writeBytes` (the arguments of `wire_events_partition_independent`) collect
+`Call.traced` of every `Read` / `Write`. -/
+theorem traced_bytes (calls : List Call) :
+    readBytes calls = (calls.map (fun c => match c with | .read d _ => d | _ => [])).flatten ∧
+    writeBytes calls = (calls.map (fun c => match c with | .write d _ _ => d | _ => [])).flatten := by
+  induction calls with
+  | nil => exact ⟨rfl, rfl⟩
+  | cons c cs ih => cases c <;> simp [readBytes, writeBytes, ih.1, ih.2]
+
+/-- non-vacuity: client side, the response HEADERS (END_STREAM) arrive in the same `Read` as
+`io.EOF`: the frame is handled first, the stream's trace is complete before the loss of the
+connection (`Ex.wsEOF` is well-formed, stream 1 of test `a` is due). -/
+example :
+    (Conn.init false 0 0).wireEvents Ex.decP Ex.decQ Ex.callsEOF = Ex.wsEOF ∧ wellFormed Ex.wsEOF = true ∧
+    (expects [] Ex.wsEOF).map (fun e => (e.id, e.name, e.due)) = [(1, "a", true)] := by
+  refine ⟨by decide, ?_⟩
+  simp [wellFormed, Ex.wsEOF, expects, Expect.see, supersede, Ex.name_a, Expect.isOpen, Expect.name, Expect.held, Ending.err,
+    Err.retryable, nodupNat, noOpenAfterGoaway, Expect.due]
+
 /-! ### transparency -/
 
 /-- `Read`/`Write`/`Close` hand the inner connection's result (count, error, bytes) to the
 caller unchanged; every model step is a total function (no crash) on any byte string. -/
 theorem transparent (inner : Nat × IOErr × Bytes) : Conn.result inner = inner := rfl
+
+/-- … for every call of the extended alphabet: bytes together with any error on `Read`, any
+count `n` (short or not) together with any error on `Write`. -/
+theorem transparent_call (call : Call) : Conn.result call.inner = call.inner := rfl
 
 end ConfModel.Props.C15
